@@ -99,11 +99,11 @@ pub fn cfg_overlay_top(rng: &mut Rng) -> Cfg {
     Cfg::Ovl(layers)
 }
 pub fn cfg_overlay_multi(rng: &mut Rng) -> Cfg {
-    if rng.chance(1, 6) {
+    if rng.chance(1, 4) {
         // layers that are sub-directories of one shared filesystem instance
-        let inner = match rng.below(4) {
-            0 => Cfg::Phys,
-            1 => Cfg::Alt(Box::new(Cfg::Mem), "/__alt/p".into()),
+        let inner = match rng.below(5) {
+            0 | 1 => Cfg::Phys,
+            2 => Cfg::Alt(Box::new(Cfg::Mem), "/__alt/p".into()),
             _ => Cfg::Mem,
         };
         return Cfg::OvlShared(Box::new(inner), rng.range(2, 3));
@@ -142,7 +142,17 @@ pub fn dispatch(a: &Args) -> Option<(Acc, RunMeta)> {
                     w.1 *= 2;
                 }
             }
-            let acc = engine::run(&spec(a, "c10-ovl", a.n(2200, 60000), (20, 40), d, cfg_overlay_multi, true, Some("C09")));
+            let mut acc = engine::run(&spec(a, "c10-ovl", a.n(1800, 50000), (20, 40), d, cfg_overlay_multi, true, Some("C09")));
+            // model-free pass: untyped calls and write handles kept open across removals (a stale handle that is
+            // published after its file was removed must not bring a removed lower-layer entry back)
+            let mut du = Domain::untyped();
+            du.weights.retain(|w| w.0 != "set_time");
+            for w in du.weights.iter_mut() {
+                if matches!(w.0, "remove_file" | "remove_dir" | "remove_dir_all") {
+                    w.1 *= 2;
+                }
+            }
+            acc.merge(engine::run(&spec(a, "c10-held", a.n(900, 25000), (15, 30), du, cfg_overlay_multi, true, None)));
             Some((acc, meta(a, "seeded random histories (20-40 steps, removal/re-creation heavy) on a top-level OverlayFS with 2-4 pre-populated layers; tombstone monitor: every lower-layer entry removed through the overlay (and its former descendants) must stay invisible to every observer until re-created; discovered-entries rule for bookkeeping names; distinct = distinct observable states", ENGINE_ASSUMPTIONS)))
         }
         "C03" => {
